@@ -513,8 +513,9 @@ fn run_shard<P: Property>(opts: &Opts, shard: usize, cases: u32, known: &[KnownE
         failure_persistence: None,
         rng_seed: RngSeed::Fixed(seed),
         rng_algorithm: RngAlgorithm::ChaCha,
-        max_shrink_iters: 4000,
-        max_shrink_time: 0,
+        // isolated properties may hit their per-case deadline on every shrink candidate: bound the shrink effort
+        max_shrink_iters: if P::isolated().is_some() { 48 } else { 4000 },
+        max_shrink_time: if P::isolated().is_some() { 180_000 } else { 0 },
         max_global_rejects: 1_000_000,
         max_local_rejects: 1_000_000,
         verbose: 0,
